@@ -761,7 +761,9 @@ def write_cache_time(f: IO[bytes], t: int | float | tuple[int, int]) -> None:
         t = (int(secs), int(nsecs * 1000000000))
     elif not isinstance(t, tuple):
         raise TypeError(t)
-    f.write(struct.pack(">LL", *t))
+    # 32-bit fields: like git, keep the low 32 bits of a time before 1970 or
+    # after 2106 rather than failing the whole index write.
+    f.write(struct.pack(">LL", t[0] & 0xFFFFFFFF, t[1] & 0xFFFFFFFF))
 
 
 def read_cache_entry(
